@@ -289,6 +289,64 @@ theorem strip_keeps_exactly {L : KV} {s : Props} (h : Inv L s) (except : List Ke
         simp [hk, hd, hv, ← h.untouched k hm hd]
   · simp [hk]
 
+/-! ### the last edit wins — for merges and for kinds too -/
+
+/-- `Merge(other)` is an edit by `other`: for every key, the other entity's deletion wins, then the other entity's
+current value, then the receiver's own state; and the tracking status follows — a key the other deleted is reported
+deleted and not modified, a key the other modified is reported modified and not deleted, a key the other does not carry
+keeps the receiver's status. -/
+theorem merge_last_edit_wins (s o : Props) (k : Key) :
+    lookup (s.merge o).m k = mergeExpect s.m o.m o.del k ∧
+    (k ∈ o.del → k ∈ (s.merge o).del ∧ k ∉ (s.merge o).mod) ∧
+    (k ∈ o.mod → k ∉ o.del → k ∈ (s.merge o).mod ∧ k ∉ (s.merge o).del) ∧
+    (k ∉ o.mod → k ∉ o.del → k ∉ keysOf o.m →
+      (k ∈ (s.merge o).mod ↔ k ∈ s.mod) ∧ (k ∈ (s.merge o).del ↔ k ∈ s.del)) := by
+  have hk := lookup_eq_none_iff o.m k
+  refine ⟨merge_lookup s o k, ?_, ?_, ?_⟩
+  · intro hd
+    simp only [merge_del, merge_mod, mem_saddAll, mem_sremAll]
+    grind
+  · intro hm hd
+    simp only [merge_del, merge_mod, mem_saddAll, mem_sremAll]
+    grind
+  · intro hm hd hkk
+    simp only [merge_del, merge_mod, mem_saddAll, mem_sremAll]
+    grind
+
+/-- The last edit of a KIND wins: after `AddKinds(ks)` every listed kind is present, reported added and not reported
+deleted; after `DeleteKinds(ks)` every listed kind is absent, reported deleted and not reported added — from every state
+reachable by any history (hypothesis: the kind invariant, i.e. duplicate-free loaded kinds, `kinds_history_inv`). -/
+theorem kinds_last_edit_wins {L : List Kind} {x : Ent} (h : KInv L x) :
+    (∀ (ks : List (Option Kind)) (k : Kind), some k ∈ ks →
+      k ∈ (x.addKinds ks).kinds ∧ k ∈ (x.addKinds ks).added ∧ k ∉ (x.addKinds ks).removed) ∧
+    (∀ (ks : List Kind) (k : Kind), k ∈ ks →
+      k ∉ (x.deleteKinds ks).kinds ∧ k ∈ (x.deleteKinds ks).removed ∧ k ∉ (x.deleteKinds ks).added) :=
+  ⟨fun ks k hk => addKinds_post h ks k hk, fun ks k hk => deleteKinds_post h ks k hk⟩
+
+/-- The PROPERTY clauses need no hypothesis at all: for every loaded state — duplicate kinds included — and every
+history, the properties of both entities satisfy the invariant (relative to the loaded map, or the empty map after a
+strip), so their change sets are disjoint and reproduce the current properties. The duplicate-free hypothesis of `c12`
+is needed for the kind clauses only (`nodup_guard_exact`). -/
+theorem props_history_inv_any_kinds (L : Loaded) (ops : List Op) (e : Bool) :
+    let x := ((St.init L).run false ops).get e
+    Inv (x.base L) x.props ∧ (∀ k, k ∈ x.props.mod → k ∉ x.props.del) ∧
+    (∀ k, lookup (applyDelta L.kv x.props.modifiedProperties x.props.del) k =
+      if x.attached = true ∨ k ∈ x.props.mod ∨ k ∈ x.props.del then lookup x.props.m k else lookup L.kv k) := by
+  intro x
+  have hp : Inv (x.base L) x.props := spinv_run (spinv_init L) ops e
+  refine ⟨hp, hp.disj, ?_⟩
+  intro k
+  unfold Ent.base at hp
+  cases ha : x.attached with
+  | true =>
+    rw [ha] at hp
+    simp only [true_or, if_true]
+    exact inv_reproduces hp k
+  | false =>
+    rw [ha] at hp
+    simp only [Bool.false_eq_true, false_or]
+    exact detached_update_exact hp L.kv k
+
 /-! ### JSON round trip -/
 
 /-- Encoding a Properties / a node to JSON and decoding it into a fresh value loses nothing the tracking needs: the map,
